@@ -532,6 +532,10 @@ class Bits:
             offset = 0
 
         if isinstance(s, io.BytesIO):
+            if offset < 0:
+                raise bitstring.CreationError(f"The offset of {offset} bits is negative.")
+            if length is not None and length < 0:
+                raise bitstring.CreationError(f"The length of {length} bits is negative.")
             if length is None:
                 length = s.seek(0, 2) * 8 - offset
             byteoffset, offset = divmod(offset, 8)
@@ -556,6 +560,8 @@ class Bits:
         with open(pathlib.Path(filename), 'rb') as source:
             if offset is None:
                 offset = 0
+            if offset < 0:
+                raise bitstring.CreationError(f"The offset of {offset} bits is negative.")
             if source.seek(0, 2) == 0:
                 # An empty file cannot be memory mapped; it is a valid source of zero bits.
                 m = b''
@@ -579,6 +585,10 @@ class Bits:
     def _setbitarray(self, ba: bitarray.bitarray, length: Optional[int], offset: Optional[int]) -> None:
         if offset is None:
             offset = 0
+        if offset < 0:
+            raise bitstring.CreationError(f"The offset of {offset} bits is negative.")
+        if length is not None and length < 0:
+            raise bitstring.CreationError(f"The length of {length} bits is negative.")
         if offset > len(ba):
             raise bitstring.CreationError(f"Offset of {offset} too large for bitarray of length {len(ba)}.")
         if length is None:
@@ -632,6 +642,10 @@ class Bits:
         data = bytearray(data)
         if offset is None:
             offset = 0
+        if offset < 0:
+            raise bitstring.CreationError(f"The offset of {offset} bits is negative.")
+        if length is not None and length < 0:
+            raise bitstring.CreationError(f"The length of {length} bits is negative.")
         if length is None:
             # Use to the end of the data
             length = len(data) * 8 - offset
